@@ -32,6 +32,21 @@ def _init_worker() -> None:
     # heavy imports once per worker
     import mypy.build  # noqa: F401
 
+    # a worker must not outlive its check: if the main process is killed (timeout, kill) the workers would stay behind as
+    # orphans, each holding the type checker's memory
+    import threading
+    import time
+
+    parent = os.getppid()
+
+    def _exit_with_parent() -> None:
+        while True:
+            time.sleep(5)
+            if os.getppid() != parent:
+                os._exit(0)
+
+    threading.Thread(target=_exit_with_parent, daemon=True).start()
+
 
 _POOL: ProcessPoolExecutor | None = None
 _SUBMITTED = 0
